@@ -59,6 +59,16 @@ def make_case(text, gold, family):
             r2 = call_impl(stepwise)
             if r2 != r:
                 return ('raise', 'AssertionError')      # reported by the oracle below
+
+            def two_batches():
+                s = ev.SegmentationSummary()
+                h = len(text) // 2
+                s.summarize(list(text[:h]), list(gold[:h]))
+                s.to_dict()['over']['<caller>'] = 99          # an export belongs to the caller
+                s.summarize(list(text[h:]), list(gold[h:]))
+                return s.to_dict()
+            if call_impl(two_batches) != r:
+                return ('raise', 'AssertionError')
             return ('ok', [list(r[1][k].items()) for k in CATS])
         return r
 
